@@ -457,6 +457,130 @@ fn check_limit(item: &str, _ctx: &Ctx) -> Outcome {
     Outcome::pass(true, hash_str(item)).with_case(format!("{} -> {}", name, out.chars().take(120).collect::<String>()))
 }
 
+// ------------------------------------------------------------------ direct statements next to a program that just fits the code pool
+
+fn unit_program(unit: &str, per_line: usize, k: usize, tail: &str) -> Vec<String> {
+    let mut v = vec![];
+    let mut left = k;
+    let mut n = 1;
+    while left > 0 {
+        let take = left.min(per_line);
+        v.push(format!("{} {}{}", n, unit.repeat(take), tail));
+        left -= take;
+        n += 1;
+    }
+    v
+}
+
+pub fn gen_boundary(part: usize, parts: usize, _th: bool, emit: &mut dyn FnMut(&str)) {
+    for (i, u) in ["A=1:", "?,,,,:", "B$=\"x\":"].iter().enumerate() {
+        if i % parts == part {
+            emit(u);
+        }
+    }
+}
+
+pub fn check_boundary(item: &str, _ctx: &Ctx) -> Outcome {
+    let unit = item;
+    let per_line = 960 / unit.len();
+    let tail = "Z9=7";
+    let mut o = Opts::default();
+    o.max_calls = 400_000;
+    // does a program of k units compile and run?
+    let fits = |k: usize| -> Result<bool, String> {
+        let mut term = Term::new();
+        let mut o = Opts::default();
+        o.max_calls = 400_000;
+        term.line("B$=\"\"", &mut o);
+        for l in unit_program(unit, per_line, k, tail) {
+            term.enter_raw(&l);
+            term.run(&mut o);
+        }
+        term.take();
+        term.line("RUN", &mut o);
+        let evs = term.take();
+        if let Some(m) = has_panic(&evs) {
+            return Err(m);
+        }
+        Ok(!flat(&evs).contains("?OUT OF MEMORY"))
+    };
+    let (mut lo, mut hi) = (1usize, 70_000usize);
+    match fits(lo) {
+        Ok(true) => {}
+        Ok(false) => return Outcome::fail("harness", "a one-unit program does not fit".into(), item.to_string()),
+        Err(m) => return Outcome::fail("panic", m, item.to_string()),
+    }
+    while lo + 1 < hi {
+        let mid = (lo + hi) / 2;
+        match fits(mid) {
+            Ok(true) => lo = mid,
+            Ok(false) => hi = mid,
+            Err(m) => return Outcome::fail("panic", m, format!("{} x {}", unit, mid)),
+        }
+    }
+    if hi >= 70_000 {
+        return Outcome::fail("limit-not-enforced", format!("a program of 70000 x {:?} still runs", unit), item.to_string());
+    }
+    let kmax = lo;
+    // programs with 0..5 units of spare room; direct statements of growing size beside them
+    for spare in 0..6usize {
+        let k = kmax - spare;
+        let case = format!("program of {} x {:?} (the largest that fits has {}), then direct statements of growing size", k, unit, kmax);
+        crate::runner::note_case(&case);
+        let mut term = Term::new();
+        let prog = unit_program(unit, per_line, k, tail);
+        for l in &prog {
+            term.enter_raw(l);
+            term.run(&mut o);
+        }
+        term.take();
+        let listing_before = term.listing_text();
+        let directs: Vec<(String, String)> = vec![
+            ("PRINT 1".into(), " 1 \n".into()),
+            ("PRINT 1;2;3;4;5;6;7;8".into(), " 1  2  3  4  5  6  7  8 \n".into()),
+            ("PRINT 1".into(), " 1 \n".into()),
+            (format!("C=0:{}PRINT C", "C=C+1:".repeat(30)), " 30 \n".into()),
+            ("PRINT 2".into(), " 2 \n".into()),
+            ("Q=5".into(), "".into()),
+            ("PRINT 3;4".into(), " 3  4 \n".into()),
+        ];
+        let mut refused = 0;
+        for (cmd, want) in &directs {
+            term.line(cmd, &mut o);
+            let evs = term.take();
+            if let Some(m) = has_panic(&evs) {
+                return Outcome::fail_sig("panic", format!("boundary-panic:{}", cmd.chars().take(7).collect::<String>()), m, format!("{}\nfailing direct statement: {}", case, cmd.chars().take(60).collect::<String>()));
+            }
+            let got = flat(&evs);
+            if got.contains("?OUT OF MEMORY") {
+                refused += 1;
+            } else if got != *want {
+                return Outcome::fail("direct-statement-beside-a-full-program", format!("{:?} printed {:?}; expected {:?} or ?OUT OF MEMORY", cmd.chars().take(60).collect::<String>(), got, want), case);
+            }
+        }
+        if term.listing_text() != listing_before {
+            return Outcome::fail("listing-changed", "direct statements changed the stored program".into(), case);
+        }
+        // make room by deleting the last line by its number: everything works again
+        let last_no = prog.len();
+        term.line(&format!("{}", last_no), &mut o);
+        term.take();
+        for (cmd, want) in [("PRINT 1+1", " 2 \n"), ("RUN", ""), ("PRINT A;Z9", if last_no == 1 { " 0  0 \n" } else if unit.starts_with("A=") { " 1  7 \n" } else { " 0  7 \n" })] {
+            term.line(cmd, &mut o);
+            let evs = term.take();
+            if let Some(m) = has_panic(&evs) {
+                return Outcome::fail("panic", m, format!("{}\nthen {}", case, cmd));
+            }
+            let got = flat(&evs);
+            let got_cmp = if cmd == "RUN" && unit.starts_with('?') { String::new() } else { got.clone() };
+            if got_cmp != want {
+                return Outcome::fail("session-not-usable-after-limit", format!("after deleting line {}: {:?} printed {:?}, expected {:?} ({} direct statements had been refused)", last_no, cmd, got.chars().take(80).collect::<String>(), want, refused), case);
+            }
+        }
+    }
+    Outcome::pass(true, hash_str(item)).with_case(format!("unit {:?}: the largest program that fits has {} units; spare room 0..5 units x 8 direct statements", unit, kmax))
+}
+
 // ------------------------------------------------------------------ at the variable limit, zeroing frees a slot
 
 fn gen_full(part: usize, _parts: usize, _th: bool, emit: &mut dyn FnMut(&str)) {
@@ -537,6 +661,7 @@ Non-trivial: the body contains a frame-pushing statement / a pool reached its li
         subs: vec![
             Sub::items("limits", gen_limits, check_limit, false).wedge(300),
             Sub::items("full_pool", gen_full, check_full, false).wedge(300),
+            Sub::items("code_boundary", gen_boundary, check_boundary, false).wedge(600),
             Sub::tape("var_slots", check_var_slots, 100_000, 2_000_000, 60),
             Sub::tape("residue", check_residue, 40_000, 1_000_000, 700).wedge(120),
             Sub::tape("long_run", check_long_run, 320, 6000, 700).wedge(600),
